@@ -18,41 +18,44 @@ import (
 )
 
 type c12Opt struct {
-	name string
-	rr   *refdns.RR
+	name          string
+	rr            *refdns.RR
+	before, after []refdns.RR // other additional records around the OPT (a query may carry e.g. a TSIG record after it)
 }
 
 func c12ClientOpts() []c12Opt {
 	o := func(size uint16, ttl uint32, opts []byte) *refdns.RR { r := refdns.OPT(size, ttl, opts); return &r }
 	return []c12Opt{
-		{"absent", nil},
-		{"empty", o(4096, 0, nil)},
-		{"cookie", o(1232, 0, refdns.Option(10, []byte{1, 2, 3, 4, 5, 6, 7, 8}))},
-		{"client-ecs", o(1232, 0, refdns.Option(8, []byte{0, 1, 32, 0, 9, 9, 9, 9}))},
-		{"padding", o(512, 0, refdns.Option(12, make([]byte, 31)))},
-		{"do-bit", o(4096, 0x00008000, nil)},
-		{"extrcode+version", o(4096, 0x01010000, nil)},
-		{"tiny-size", o(0, 0, nil)},
+		{name: "absent", rr: nil},
+		{name: "empty", rr: o(4096, 0, nil)},
+		{name: "cookie", rr: o(1232, 0, refdns.Option(10, []byte{1, 2, 3, 4, 5, 6, 7, 8}))},
+		{name: "client-ecs", rr: o(1232, 0, refdns.Option(8, []byte{0, 1, 32, 0, 9, 9, 9, 9}))},
+		{name: "padding", rr: o(512, 0, refdns.Option(12, make([]byte, 31)))},
+		{name: "do-bit", rr: o(4096, 0x00008000, nil)},
+		{name: "extrcode+version", rr: o(4096, 0x01010000, nil)},
+		{name: "tiny-size", rr: o(0, 0, nil)},
+		{name: "opt-then-other-record", rr: o(1232, 0, nil), after: []refdns.RR{refdns.A(refdns.N("extra", "test"), 0, 1, 2, 3, 4)}},
+		{name: "other-record-then-opt", rr: o(1232, 0, nil), before: []refdns.RR{refdns.A(refdns.N("extra", "test"), 0, 1, 2, 3, 4)}},
 	}
 }
 
 func c12UpOpts() []c12Opt {
 	o := func(size uint16, ttl uint32, opts []byte) *refdns.RR { r := refdns.OPT(size, ttl, opts); return &r }
 	return []c12Opt{
-		{"absent", nil},
-		{"empty", o(1232, 0, nil)},
-		{"ecs-scope", o(1232, 0, refdns.Option(8, []byte{0, 1, 24, 24, 198, 51, 100}))},
-		{"cookie", o(1232, 0, refdns.Option(10, make([]byte, 24)))},
-		{"padding+do", o(4096, 0x8000, refdns.Option(12, make([]byte, 100)))},
+		{name: "absent", rr: nil},
+		{name: "empty", rr: o(1232, 0, nil)},
+		{name: "ecs-scope", rr: o(1232, 0, refdns.Option(8, []byte{0, 1, 24, 24, 198, 51, 100}))},
+		{name: "cookie", rr: o(1232, 0, refdns.Option(10, make([]byte, 24)))},
+		{name: "padding+do", rr: o(4096, 0x8000, refdns.Option(12, make([]byte, 100)))},
 		// a type-41 record whose owner is not the root (malformed, but it is what the upstream sent): not relayed either
-		{"opt-with-owner-name", func() *refdns.RR {
+		{name: "opt-with-owner-name", rr: func() *refdns.RR {
 			r := refdns.OPT(1232, 0, refdns.Option(10, make([]byte, 8)))
 			r.Owner = refdns.N("x")
 			return &r
 		}()},
 		// no reply at all / a failed exchange: the proxy's own SERVFAIL follows the same rule
-		{"silence", nil},
-		{"exchange-fails", nil},
+		{name: "silence", rr: nil},
+		{name: "exchange-fails", rr: nil},
 	}
 }
 
@@ -209,7 +212,7 @@ func c12Scenario(c *choice.Ctx, rep *report.R) {
 
 	q := refdns.Query(0x1212, refdns.N("edns", "example", "test"), 1, 1)
 	if co.rr != nil {
-		q.Ar = []refdns.RR{*co.rr}
+		q.Ar = append(append(append([]refdns.RR(nil), co.before...), *co.rr), co.after...)
 	}
 	nResp, nUp := 0, 0
 	obs := ""
@@ -309,6 +312,21 @@ func c12SourceScenario(c *choice.Ctx, rep *report.R) {
 			}
 		}})
 	}
+	// a stream client whose peer address is not an IP address (a listener on a unix socket): the client address is unknown
+	srcs = append(srcs, src{name: "tcp:peer-is-not-an-ip-address", want: netip.Addr{}, send: func(v *vRouter, wire []byte) func() (bool, []byte) {
+		srv := v.newTCPServer(0, 300*time.Second)
+		impl, _ := env.Pipe(zvTCPAddr(vLocalV4), unknownAddr{})
+		v.closers = append(v.closers, func() { impl.PeerFIN() })
+		go func() { srv.handleConn(impl); impl.Close() }()
+		impl.Inject(refdns.Frame(wire))
+		return func() (bool, []byte) {
+			fs, _ := env.SplitFrames(impl.Written())
+			if len(fs) == 0 {
+				return false, nil
+			}
+			return true, fs[0]
+		}
+	}})
 	for _, server := range []string{"http", "fasthttp"} {
 		for _, method := range []string{"GET", "POST"} {
 			for _, mode := range []string{"no-header-configured", "header-present", "header-list", "header-absent"} {
@@ -373,7 +391,9 @@ func c12SourceScenario(c *choice.Ctx, rep *report.R) {
 	}
 	sr := srcs[c.Choose(len(srcs), "source")]
 	cached := c.Choose(2, "refresh-too") == 1
-	desc := fmt.Sprintf("ecs=on source=%s expected-client=%v", sr.name, sr.want)
+	// non-initial state: another client with a known address was served just before (its request objects have been recycled)
+	earlier := c.Choose(2, "a-known-client-was-served-before") == 1
+	desc := fmt.Sprintf("ecs=on source=%s expected-client=%v earlier-known-client=%v", sr.name, sr.want, earlier)
 	fail := func(sig, msg string) {
 		rep.Violate("C12:client-address:"+sig, msg+"\n  "+desc, map[string]any{"Choices": c.Choices(), "Source": true})
 	}
@@ -391,6 +411,21 @@ func c12SourceScenario(c *choice.Ctx, rep *report.R) {
 	u.Auto = nil
 	q := refdns.Query(0x1213, refdns.N("src", "example", "test"), 1, 1)
 	q.Ar = []refdns.RR{refdns.OPT(1232, 0, nil)}
+	if earlier {
+		pq := refdns.Query(0x1214, refdns.N("earlier", "example", "test"), 1, 1)
+		pc := v.tcpClient(v.newTCPServer(0, 300*time.Second), netip.MustParseAddrPort("192.0.2.200:4000"), vLocalV4)
+		pc.SendMsg(pq)
+		wait()
+		for _, uq := range u.Pending() {
+			if uq.Msg != nil {
+				uq.Reply(env.Answer(uq.Msg, 9, 60).Encode(false))
+			}
+		}
+		wait()
+		pc.Close()
+		wait()
+		nUp = len(u.Queries())
+	}
 	rounds := 1
 	if cached {
 		rounds = 2 // the second query arrives in the last quarter of the ttl: the background refresh must carry the same client prefix
